@@ -50,6 +50,10 @@ def run(ctx):
     for p in sorted(glob.glob(os.path.join(build.VERIF, "corpus", "progs", "*.nano"))):
         fams.append(("corpus " + os.path.basename(p), open(p).read()))
     fams.append(("argument-order (F-C02-2)", lang.ARG_ORDER_WITNESS))
+    # strings beyond the native runtime's 1 MiB scan bound (witness of F-C01-15): concatenating two strings of 1.5 MiB
+    fams.append(("string-beyond-1MiB (F-C01-15)",
+                 "fn main() -> int {\n    let mut s: string = \"abc\"\n    while (< (str_length s) 1572864) {\n        set s (+ s s)\n    }\n    let t: string = (str_substring s 0 1572864)\n"
+                 "    (println (str_length t))\n    let u: string = (+ t t)\n    (println (str_length u))\n    return 0\n}\nshadow main { assert (== 1 1) }\n"))
 
     with tempfile.TemporaryDirectory(prefix="nvc01", dir="/var/tmp") as td:
         paths = []
@@ -110,6 +114,10 @@ def run(ctx):
         if name.startswith("argument-order") and "F-C02-2" in ctx.findings and ctx.findings["F-C02-2"]["status"] == "known" and sorted(v["out"].split()) == sorted(n["out"].split()):
             ctx.known("F-C02-2", "native back end evaluates call arguments / array literal elements right to left (native prints %s, VM %s)"
                       % (" ".join(n["out"].decode().split()[:3]), " ".join(v["out"].decode().split()[:3])))
+            continue
+        if name.startswith("string-beyond-1MiB") and "F-C01-15" in ctx.findings and ctx.findings["F-C01-15"]["status"] == "known" and v["rc"] == 0 and n["rc"] == 0 and v["out"].split()[:1] == [b"1572864"]:
+            ctx.known("F-C01-15", "the native runtime scans strings with strnlen(s, 1 MiB): lengths and concatenations of longer strings are silently cut (native prints %s, VM %s)"
+                      % (" ".join(n["out"].decode().split()[:2]), " ".join(v["out"].decode().split()[:2])))
             continue
         oracle_fail.append({"family": name, "why": "native and VM observations differ", "vm": {"exit": v["rc"], "stdout_tail": v["out"][-300:].decode(errors="replace"), "stderr": v["err"]},
                             "native": {"exit": n["rc"], "stdout_tail": n["out"][-300:].decode(errors="replace"), "stderr": n["err"]},
